@@ -40,7 +40,7 @@ def gen_case(rng, cfg, big=False):
     nfiles = rng.choice([1, 1, 2, 3, 6])
     for _ in range(nfiles):
         ids = []
-        kind = rng.choice(["fresh", "mixed", "fragmented", "tiny", "selfrepeat", "empty", "mixed"])
+        kind = rng.choice(["fresh", "mixed", "fragmented", "tiny", "selfrepeat", "empty", "mixed", "refusedrun"])
         if kind == "empty":
             pass
         elif kind == "tiny":
@@ -53,6 +53,22 @@ def gen_case(rng, cfg, big=False):
                 ids += base[rng.randrange(len(base)):] if rng.random() < 0.5 else base
                 if rng.random() < 0.4:
                     ids += new_ids(rng.randrange(1, 3))
+        elif kind == "refusedrun":
+            # short ranges fill the fragmentation estimator, then runs of two or more external chunks arrive: the estimator
+            # refuses some of them, their first chunk is stored and the rest of the run is looked up (and accepted) again
+            pool = max(ext, key=len) if ext else []
+            if len(pool) < 4:
+                pool = new_ids(5)
+                ops.append("X %d %d %s" % (900000 + len(ext) + 50, 1000000, fmt(pool)))
+                ext.append(pool)
+            ids = [pool[-1]] + pool[:-1]
+            for _ in range(rng.randrange(2, 7)):
+                a = rng.randrange(len(pool) - 1)
+                ids += pool[a:a + rng.choice([2, 2, 3])]
+                if rng.random() < 0.4:
+                    ids += [pool[-1]]
+                if rng.random() < 0.3:
+                    ids += new_ids(1)
         elif kind == "fragmented":
             # alternate single external chunks with fresh ones: many short dedup ranges -> defrag prevention fires
             pool = [i for e in ext for i in e] or new_ids(5)
